@@ -173,8 +173,7 @@ def _sx_int(*a, **k):
         return _parse_int(x, int(base))
     if isinstance(x, SymStr):
         x = x.concrete()
-    from .symnum import SymDec
-    if isinstance(x, SymDec):
+    if getattr(x, '_sx_symdec', False):
         return x.to_int()
     return int(x, *a[1:], **k)
 
@@ -184,8 +183,9 @@ def _parse_int(s, base):
     if base not in (10, 16):
         raise Unsupported('int() with base %r on symbolic string' % base)
     e = eng()
-    ws = _pred_mask('isspace')
     s = s.strip()
+    if not isinstance(s, SymStr):
+        return int(s, base)
     ch = list(s.ch)
     if not ch:
         raise ValueError("invalid literal for int() with base %d: ''" % base)
@@ -231,8 +231,7 @@ def _sx_float(*a):
     if a and isinstance(a[0], SymInt):
         from .symnum import SymDec
         return SymDec.from_int(a[0])
-    from .symnum import SymDec
-    if a and isinstance(a[0], SymDec):
+    if a and getattr(a[0], '_sx_symdec', False):
         return a[0]
     return float(*a)
 
